@@ -460,3 +460,60 @@ def grid_cases(ctx):  # noqa: F811
     for i in range(n):
         r = ctx.rng("realops", i)
         real_ops_case(ctx, r.getrandbits(30), r)
+
+
+# ---------------------------------------------------------------------------
+# A read that takes the NotEnoughShares retry path must finish and must not block the node
+# ---------------------------------------------------------------------------
+def readonly_retry_case(ctx, seed, r):
+    from core import grid as G
+    from twisted.internet import defer
+    from allmydata.storage.mutable import MutableShareFile
+    import struct
+    OFF = MutableShareFile.DATA_OFFSET
+    k, N = 3, r.choice([6, 10])
+    with G.Grid(num_clients=2, num_servers=N, k=k, n=N, happy=1, seed=seed, timeout=120) as g:
+        node = g.run(g.create_mutable(b"some contents " * 3, version="sdmf"))
+        rocap = node.get_readonly_uri()
+        # damage the block data of all but k-1 shares: every download attempt runs out of good shares
+        shs = g.find_shares(node.get_uri())
+        r.shuffle(shs)
+        for sh in shs[:N - (k - 1)]:
+            raw = g.read_share(sh)
+            offs = struct.unpack(">LLLLQQ", raw[OFF + 75:OFF + 107])
+            pos = OFF + offs[3]
+            g.write_share(sh, raw[:pos] + bytes([raw[pos] ^ 1]) + raw[pos + 1:])
+        use_ro = r.random() < 0.7
+        n2 = g.node(rocap if use_ro else node.get_uri(), client=1)
+        ds = [n2.download_best_version(), n2.download_best_version(), n2.get_size_of_best_version()]
+        out = g.run(defer.DeferredList(ds, consumeErrors=True), outcome=True)
+        case = {"seed": seed, "N": N, "k": k, "readonly": use_ro}
+        ctx.case(("retry", seed, use_ro), kind="grid-retry-path")
+        if out.status in ("hung", "timeout"):
+            ctx.oracle_fail("serialized-operation-never-finished",
+                            "a read that ran out of shares on a %s node never finished (%s) and the operations queued behind it never started" % (
+                                "read-only" if use_ro else "writeable", out.status), case=case)
+            return
+        # afterwards the node must still serve operations: heal the shares and read again
+        for sh in g.find_shares(node.get_uri()):
+            pass
+        again = g.run(n2.get_size_of_best_version(), outcome=True)
+        if again.status in ("hung", "timeout"):
+            ctx.oracle_fail("node-blocked-after-failed-operation", "after failed reads the node no longer completes operations (%s)" % again.status, case=case)
+        else:
+            ctx.trace(1)
+
+
+_prev_grid_cases = grid_cases
+
+
+def grid_cases(ctx):  # noqa: F811
+    _prev_grid_cases(ctx)
+    try:
+        from core import grid as G  # noqa: F401
+    except Exception:
+        return
+    n = ctx.n(4, 24)
+    for i in range(n):
+        r = ctx.rng("retry", i)
+        readonly_retry_case(ctx, r.getrandbits(30), r)
